@@ -17,6 +17,9 @@ CLAIMED = {
  "C16": ("enum", "exhaustive enumeration of (n, view) for the stateless schemes and of (commit head, signer set, proposers, seed, query) for carousel/reputation on independent instances",
          "Round-robin/fixed/tree-leader: n in 1..64, views 0..1024 (4096 thorough) plus 64 views around 2^32, 2^63 and 2^64-1, on every replica's own instance, incl. the bijection over any n consecutive views. Carousel: every head signer set >= quorum x last-f proposers x 3 seeds x 6 views around the activation point for n in {4,7}; reputation: all head sequences of length 2 (3 thorough), two instances compared.",
          "Carousel/reputation signer sets are structurally valid quorums (validity of the signatures is C02's subject); windows crossing the uint64 wrap are excluded.", "§4 C16"),
+ "C14": ("seqmc+schedmc", "exhaustive operation-sequence enumeration on the real queue / EventLoop against a reference deque and FIFO/once/priority/deferral invariants; preemption-bounded schedule enumeration for concurrent producers",
+         "Queue: every push/pop sequence of length <= 2c+4 for capacities 1..4 (6 thorough) against a drop-oldest deque. EventLoop: every operation sequence to depth 6 (7 thorough) over 15 operations (add, defer, register plain/priority/run-in-add/adding/unregistering handlers, unregister incl. stale double calls, tick) on capacities 64 and 2; overflow reports compared with the oldest pending events.",
+         "Handler order inside one priority class and handlers (un)registered during the dispatch of the same event are unspecified by the property and treated as don't-care.", "§4 C14"),
 }
 PENDING = {}  # id -> reason (properties not claimed)
 
